@@ -152,6 +152,7 @@ type polCase struct {
 	TZMin     int           `json:"tz_offset_min,omitempty"` // local time zone of the proxy host, minutes east of UTC
 	Start     time.Duration `json:"start"` // clock offset from Sat 2000-01-01 00:00 before anything starts
 	// routing
+	FlakyProxy int      `json:"flaky_proxy,omitempty"` // an upstream proxy resets the first N connections it accepts (per listening address)
 	FlakyDial int       `json:"flaky_dial,omitempty"` // the first N connection attempts to every address are refused (the dialer retries)
 	Upstream  string    `json:"upstream,omitempty"` // URL
 	PAC       string    `json:"pac,omitempty"`
@@ -198,6 +199,7 @@ type polWorld struct {
 	results  []*polResult
 	ca       *simtls.CA
 	leafs    map[string]tls.Certificate
+	accepted map[string]int // (FlakyProxy) listening address -> connections accepted so far
 }
 
 var polTokRe = regexp.MustCompile(`(tk[0-9]+z)`)
@@ -301,6 +303,20 @@ func (p *prefixConn) Read(b []byte) (int, error) { return p.r.Read(b) }
 func (w *polWorld) listenRecorder(node, addr string, withTLS string) {
 	serve(w.env, node, addr, func(conn *simnet.Conn) {
 		local, from := conn.LocalAddr().String(), conn.RemoteAddr().String()
+		if w.c.FlakyProxy > 0 && (node == "proxyA" || node == "proxyB") {
+			w.mu.Lock()
+			if w.accepted == nil {
+				w.accepted = map[string]int{}
+			}
+			w.accepted[addr]++
+			nth := w.accepted[addr]
+			w.mu.Unlock()
+			if nth <= w.c.FlakyProxy {
+				w.env.Fault("upstream-proxy-reset-on-accept")
+				conn.Abort()
+				return
+			}
+		}
 		if withTLS != "" {
 			srv := tls.Server(conn, &tls.Config{GetCertificate: func(hi *tls.ClientHelloInfo) (*tls.Certificate, error) {
 				name := hi.ServerName
